@@ -217,10 +217,10 @@ type sizes struct {
 }
 
 func main() {
-	facts, jsontext, enc := false, false, false
+	facts, jsontext, enc, own := false, false, false, false
 	for i, a := range os.Args {
-		if a == "-facts" || a == "-jsontext" || a == "-enc" {
-			facts, jsontext, enc = a == "-facts", a == "-jsontext", a == "-enc"
+		if a == "-facts" || a == "-jsontext" || a == "-enc" || a == "-own" {
+			facts, jsontext, enc, own = a == "-facts", a == "-jsontext", a == "-enc", a == "-own"
 			os.Args = append(os.Args[:i], os.Args[i+1:]...)
 			break
 		}
@@ -255,6 +255,10 @@ func main() {
 	}
 	if jsontext {
 		emitJSONText(o, cfg)
+		return
+	}
+	if own {
+		emitOwn(o, cfg)
 		return
 	}
 	sz := sizes{inputs: 24, progs: 1500, extra: 2, cli: 80, workers: 4, batchShare: 60, top: 170}
@@ -741,6 +745,10 @@ func replay(o *hlib.Out, path string) {
 			} else {
 				o.Verdict("PROPFAIL", "j "+inJSON+sepInProg+prog+sepObs+obs)
 			}
+			continue
+		}
+		if mode == "o" {
+			replayOwn(o, f, in, prog)
 			continue
 		}
 		if err := f.setIn(in); err != nil {
